@@ -150,3 +150,87 @@ func VerifH_ReaderAgree() {
 		vrt.Cover("reader-agree-packets")
 	}
 }
+
+// VerifH_SplitEmitOldCompat: packets written the way the current writer writes them
+// (the real SplitN with a symbolic split size, AppendFrame per frame) - including packets
+// with the control bit that span several frames - are decoded by the released reader to
+// exactly the packets without the control bit, payloads whole, and by the current reader
+// to all of them.
+func VerifH_SplitEmitOldCompat() {
+	npkts := vrt.Param("pkts", 2)
+	maxdata := vrt.Param("maxdata", 3)
+	var stream []byte
+	var want, wantAll []pktOut
+	var wantCtl []bool
+	mid := uint64(0)
+	for i := 0; i < npkts; i++ {
+		mid++
+		kind := vrt.U8("kind")
+		vrt.Assume(kind >= 1 && kind < 64)
+		control := vrt.Bool("control")
+		data := vrt.Bytes("d", maxdata)
+		n := vrt.Int("n")
+		vrt.Assume(n >= -1 && n <= 3 && n != 0)
+		pkt := newwire.Packet{Data: data, ID: newwire.ID{Stream: 1, Message: mid}, Kind: newwire.Kind(kind), Control: control}
+		frames := 0
+		err := newwire.SplitN(pkt, n, func(fr newwire.Frame) error {
+			stream = newwire.AppendFrame(stream, fr)
+			frames++
+			return nil
+		})
+		vrt.Assert(err == nil, "SplitN returns nil")
+		if frames > 1 {
+			if control {
+				vrt.Cover("multi-frame-control")
+			} else {
+				vrt.Cover("multi-frame-data")
+			}
+		}
+		out := pktOut{kind, 1, mid, append([]byte(nil), data...)}
+		wantAll = append(wantAll, out)
+		wantCtl = append(wantCtl, control)
+		if !control {
+			want = append(want, out)
+		}
+	}
+	same := func(o, w pktOut) {
+		vrt.Assert(o.kind == w.kind && o.sid == w.sid && o.mid == w.mid && len(o.data) == len(w.data), "same packet header and payload length")
+		for j := range o.data {
+			if j < len(w.data) {
+				vrt.Assert(o.data[j] == w.data[j], "same packet payload")
+			}
+		}
+	}
+	or := oldwire.NewReader(&byteReader{data: stream})
+	for i := 0; ; i++ {
+		p, err := or.ReadPacket()
+		if err != nil {
+			vrt.Assert(err == io.EOF, "the old reader accepts what the current writer emits")
+			vrt.Assert(i == len(want), "the old reader returns every packet without the control bit and nothing else")
+			break
+		}
+		vrt.Assert(i < len(want), "the old reader returns no packet the writer did not send without the control bit")
+		if i < len(want) {
+			same(pktOut{uint8(p.Kind), p.ID.Stream, p.ID.Message, p.Data}, want[i])
+		} else {
+			break
+		}
+	}
+	nr := newwire.NewReader(&byteReader{data: stream})
+	for i := 0; ; i++ {
+		p, err := nr.ReadPacket()
+		if err != nil {
+			vrt.Assert(err == io.EOF, "the current reader accepts what the current writer emits")
+			vrt.Assert(i == len(wantAll), "the current reader returns every packet")
+			break
+		}
+		vrt.Assert(i < len(wantAll), "the current reader returns no extra packet")
+		if i < len(wantAll) {
+			same(pktOut{uint8(p.Kind), p.ID.Stream, p.ID.Message, p.Data}, wantAll[i])
+			vrt.Assert(p.Control == wantCtl[i], "control bit preserved by the current reader")
+		} else {
+			break
+		}
+	}
+	vrt.Cover("split-emit-end")
+}
